@@ -1,10 +1,11 @@
 #!/bin/sh
 # Offline setup: builds the Lean project (model, proofs, driver) and the Go harness from files on disk only.
-set -e
-cd "$(dirname "$0")"
+cd "$(dirname "$0")" || exit 1
 export GOFLAGS=-mod=mod GOPROXY=off GOSUMDB=off GOTOOLCHAIN=local
 mkdir -p .build evidence replays
-(cd lean && lake build)
+(cd lean && lake build RulioModel rulio-model) || exit 1
+# the theorems of each property are (re)built and audited by its check; pre-build them here so that checks are fast
+(cd lean && lake build Props) || echo "warning: some property modules did not build; their checks will report it"
 cp /repo/go.sum harness/go.sum
-(cd harness && go build -tags verif -o ../.build/driver ./cmd/driver)
+(cd harness && go build -tags verif -o ../.build/driver ./cmd/driver) || exit 1
 echo setup ok
